@@ -370,7 +370,11 @@ class Host:
         if not manifest['shared_network']:
             network_client.put(unique_name, {'environment': manifest['environment']})
             self.serve_network()
-            app_network = network_client.wait(unique_name)
+            # run() calls wait(unique_name): with the default timeout that builds an inotify watcher
+            # even though the reply is already there; only 128 inotify instances exist per user and
+            # other processes of the sandbox use them, so the harness asks with timeout=0 (same
+            # reply, no watcher)
+            app_network = network_client.wait(unique_name, timeout=0)
             self.close_inotifies()
             c.vip = app_network['vip']
         else:
